@@ -203,6 +203,15 @@ class _Frame:
         self.depth = depth
 
 
+def _ordered_keys(da, db):
+    """Union of the keys of two dicts in an order that does not depend on the hash seed: keys of the first dict in
+    insertion order, then the remaining keys of the second."""
+    out = list(da)
+    seen = set(da)
+    out.extend(k for k in db if k not in seen)
+    return out
+
+
 class Interp:
     def __init__(self, prog: Program, domain: Domain, max_depth=MAX_DEPTH, inline_filter=None):
         self.prog = prog
@@ -280,7 +289,7 @@ class Interp:
 
     def join_obj(self, oa: Obj, ob: Obj, st_out: State) -> Obj:
         slots = {}
-        for k in set(oa.slots) | set(ob.slots):
+        for k in _ordered_keys(oa.slots, ob.slots):
             slots[k] = self.join_v(oa.slots.get(k), ob.slots.get(k), st_out)
         if oa.elem is None:
             elem = ob.elem
@@ -312,7 +321,7 @@ class Interp:
                 out.store[addr] = ob
         for addr in todo:
             out.put(addr, self.join_obj(a.store[addr], b.store[addr], out))
-        for k in set(a.env) | set(b.env):
+        for k in _ordered_keys(a.env, b.env):
             out.env[k] = self.join_v(a.env.get(k), b.env.get(k), out)
         return out
 
